@@ -2168,8 +2168,8 @@ class TypeBlocks(ContainerOperand):
                 t_start = t_end
                 continue
 
-            # will always reduce to a 1D array
-            part = block[target]
+            # will always reduce to a 1D array; 2D blocks are read column by column, so that the order of the cells does not depend on how columns are grouped into blocks
+            part = block[target] if block.ndim == 1 else block.T[target.T]
             if dt_resolve is None:
                 dt_resolve = part.dtype
             else:
@@ -2182,7 +2182,7 @@ class TypeBlocks(ContainerOperand):
                 for row_pos in np.nonzero(target)[0]:
                     coords.append((row_pos, t_start))
             else:
-                for row_pos, col_pos in zip(*np.nonzero(target)):
+                for col_pos, row_pos in zip(*np.nonzero(target.T)):
                     coords.append((row_pos, t_start + col_pos))
             t_start = t_end
 
